@@ -1,4 +1,16 @@
 (* Token-level entry point for property C09: the shared history fold of
    Model/PoolEntry.v evaluating the C09 predicates (see props/C09.json). *)
 From Erbium Require Import Lib.Base Model.DhcpPool Model.PoolEntry.
-Definition check_C09 (ts : list N) : list N := check_pool 9 ts.
+(* kind 41 (end-to-end rig, scenario `dhcpflow`): [41; step; before; after] -- the yiaddr of two consecutive
+   replies of the REAL binary to one client: step 0 = OFFER then the ACK of the REQUEST selecting it ("the
+   address acknowledged after an offer is the address that was offered"), step 1 = that ACK then the ACK of
+   the renewal ("given that same address again on every ... renewal").  A history line can never have this
+   shape (41 events need more than three further tokens). *)
+Definition check_rig_same (step before after : N) : list N :=
+  if before =? after then v_ok (200 + N.min step 1) else v_viol (if step =? 0 then 4 else 1).
+
+Definition check_C09 (ts : list N) : list N :=
+  match ts with
+  | [41; step; before; after] => check_rig_same step before after
+  | _ => check_pool 9 ts
+  end.
